@@ -739,3 +739,26 @@ pub fn replay<H: Harness>(h: &H, path: &Path) -> i32 {
 		}
 	}
 }
+
+
+/// Run a helper subprocess (real-process legs) with a wall-clock limit; `None` if it had to
+/// be killed or could not be started.
+pub fn output_with_timeout(mut cmd: Command, secs: u64) -> Option<std::process::Output> {
+	cmd.stdin(Stdio::null()).stdout(Stdio::piped()).stderr(Stdio::piped());
+	let mut child = cmd.spawn().ok()?;
+	let t0 = Instant::now();
+	loop {
+		match child.try_wait() {
+			Ok(Some(_)) => return child.wait_with_output().ok(),
+			Ok(None) => {
+				if t0.elapsed() > Duration::from_secs(secs) {
+					let _ = child.kill();
+					let _ = child.wait();
+					return None;
+				}
+				std::thread::sleep(Duration::from_millis(50));
+			}
+			Err(_) => return None,
+		}
+	}
+}
